@@ -91,18 +91,18 @@ type run struct {
 	pushPhase bool
 	errRand   *rand.Rand
 
-	probe       map[int64]int64 // channel -> marker to attach to its next channelDifference response
-	waiters     map[int64]chan struct{}
-	seen        map[int64]bool
-	genuineChTL map[int64]int // channelDifferenceTooLong responses whose callback has not been seen yet
+	probe        map[int64]int64 // channel -> marker to attach to its next channelDifference response
+	waiters      map[int64]chan struct{}
+	seen         map[int64]bool
+	genuineChTL  map[int64]int // channelDifferenceTooLong responses whose callback has not been seen yet
 	wprobePushed map[int64]int // worker probes pushed so far
 	wprobeCount  map[int64]int // probe callbacks seen so far
 	wprobeNeed   map[int64]int // the waiter is released when wprobeCount reaches this
 	wprobeWait   map[int64]chan struct{}
-	nextMarker  int64
-	strays      int
-	badHash     int
-	storm       bool
+	nextMarker   int64
+	strays       int
+	badHash      int
+	storm        bool
 
 	mgr     *updates.Manager
 	cancel  context.CancelFunc
